@@ -618,7 +618,12 @@ class DeserializationMethodVisitor(
             method_by_cls = dict(
                 zip((f.cls for f in alt_factories if f.cls is not None), alt_methods)
             )
-            if NoneType in types and len(alt_methods) == 2:
+            if (
+                NoneType in types
+                and len(alt_methods) == 2
+                # with coercion, a None alternative listed first must be tried first
+                and (self.coercer is None or types[0] is not NoneType)
+            ):
                 value_method = next(
                     meth
                     for fact, meth in zip(alt_factories, alt_methods)
